@@ -8,7 +8,8 @@ EXTENDS TreeEditor, Json
 CONSTANTS MaxOps, Level    \* Level 1: narrow alphabet, 2: all entry kinds, 3: + placeholders, links, set_root, deeper cursor
 
 \* blob a < a- < a0 but tree a ("a/") sorts between a- and a0: type changes of `a` move it
-P == { <<"a">>, <<"a-">>, <<"a0">>, <<"a","b">>, <<"a","c">>, <<"a","b","c">> }
+\* `a-/b` makes `a-` a sibling *directory* whose name merely starts with `a` (pending edits of one must survive edits of the other)
+P == { <<"a">>, <<"a-">>, <<"a0">>, <<"a","b">>, <<"a","c">>, <<"a","b","c">>, <<"a-","b">> }
 CursorAt == IF Level = 1 THEN { <<"a">> } ELSE { <<"a">>, <<"a","b">> }
 CursorRel == { <<"b">>, <<"c">>, <<"b","c">> }
 KindsNarrow == { <<"blob","B1">>, <<"tree","T1">> }
